@@ -280,11 +280,34 @@ def o203(ctx):
         ctx.finding(q, lp, "the candidate matches must be sorted by increasing distance before the greedy assignment", lp, m)
     names = [e.id for e in lp.target.elts] if isinstance(lp.target, ast.Tuple) else []
     mc, fc = ctx.prog.func(MT + "measure_thickness_cpu")
-    prod = [n for n in ast.walk(fc) if isinstance(n, ast.Call) and src(n.func).endswith("flat_matches.append") and n.args and isinstance(n.args[0], ast.Tuple)]
-    ctx.count(1, {"consumer tuple": names, "producer tuple": [src(e) for e in prod[0].args[0].elts] if prod else None})
-    if len(names) != 3 or not prod or [src(e) for e in prod[0].args[0].elts] != ["dist", "source_idx", "target_idx"] or names != ["dist", "source_idx", "target_idx"]:
+    # the producer: the list handed to process_matches_cpu2cpu as first argument, and the tuples appended to it
+    handoff = [n for n in ast.walk(fc) if isinstance(n, ast.Call) and (ctx.prog.resolve(mc, n.func) or "").endswith("process_matches_cpu2cpu")]
+    if len(handoff) != 1 or not handoff[0].args or not isinstance(handoff[0].args[0], ast.Name):
+        raise Unsupported("hand-off of the candidate list to process_matches_cpu2cpu not recognised", fc)
+    lst = handoff[0].args[0].id
+    prod = [n for n in ast.walk(fc) if isinstance(n, ast.Call) and isinstance(n.func, ast.Attribute) and n.func.attr == "append"
+            and isinstance(n.func.value, ast.Name) and n.func.value.id == lst and n.args and isinstance(n.args[0], ast.Tuple)]
+
+    def role(name_node):
+        """distance: defined through a square root; source / target index: defined in the outer / inner neighbour loop"""
+        if not isinstance(name_node, ast.Name):
+            return "?"
+        defs = [a for a in ast.walk(fc) if isinstance(a, ast.Assign) and isinstance(a.targets[0], ast.Name) and a.targets[0].id == name_node.id]
+        if len(defs) != 1:
+            return "?"
+        if any(isinstance(c_, ast.Call) and src(c_.func).endswith("sqrt") for c_ in ast.walk(defs[0].value)):
+            return "distance"
+        depth, p_ = 0, mc.parents.get(defs[0])
+        while p_ is not None and p_ is not fc:
+            depth += isinstance(p_, ast.For)
+            p_ = mc.parents.get(p_)
+        return {1: "source", 2: "target"}.get(depth, "?") if isinstance(defs[0].value, ast.Subscript) else "?"
+
+    proles = [role(e) for e in prod[0].args[0].elts] if len(prod) == 1 else None
+    ctx.count(1, {"consumer tuple": names, "producer tuple": [src(e) for e in prod[0].args[0].elts] if prod else None, "producer roles": proles})
+    if len(names) != 3 or proles != ["distance", "source", "target"]:
         ctx.finding(q, lp, "producer and consumer must agree on the tuple layout (distance, source index, target index): the distance must "
-                    "come first so that sorting orders by distance", lp, m)
+                    "come first so that sorting orders by distance", lp, m, producer_roles=proles)
     d_name, s_name, t_name = names if len(names) == 3 else ("dist", "source_idx", "target_idx")
     ifs = [n for n in lp.body if isinstance(n, ast.If)]
     if len(ifs) != 1:
